@@ -168,6 +168,9 @@ CORE_SHAPES = [
     {'top': 2, 'scripts': [[['T'], ['I', 1]], [['T'], ['T']]]},
     # interrupt + spawn at the same instant
     {'top': 2, 'scripts': [[['T'], ['S', 2], ['I', 1]], [['T']], [['T']]]},
+    # interrupt first, then spawn, in one step (urgent occurrences keep their trigger order)
+    {'top': 2, 'scripts': [[['T'], ['I', 1], ['S', 2]], [['T'], ['T']], [['T']]]},
+    {'top': 2, 'scripts': [[['T'], ['I', 1], ['S', 2], ['I', 1]], [['T'], ['T'], ['T']], []]},
     # shared event succeeded at a symbolic instant, waiter continues with a timeout
     {'top': 2, 'scripts': [[['T'], ['E', 0]], [['W', 0], ['T']]]},
     # join
